@@ -25,7 +25,8 @@ ICMPv6 directly or after a fragment header), on the raw frame and — `…_ip` v
 packet behind a 14-byte Ethernet header, which is the shape the matcher models work on.  The
 theorem that composes these with the driver models (`recv … ≠ ignore → accepts …`) belongs to the
 drivers' module.  `c12_sites_cover` shows that the filter each variant installs (table extracted from the source)
-passes what that variant needs; `c12_sites_config` pins the direction of the configured tuple.
+passes what that variant needs; `c12_sites_config` (module `TRV.Props.TieFilterSites`, a textual pin
+with TIE-DRIFT semantics) pins the direction of the configured tuple.
 -/
 namespace TRV.Props.C12
 open TRV TRV.Bpf TRV.Spec.Filters TRV.Generated.Filters TRV.Proofs.Bpf
@@ -240,16 +241,6 @@ theorem c12_sites_cover :
   · rw [c12_tcp_exact]; exact hneed
   · rw [c12_synack_exact]; exact hneed.1
 
-/-- The direction of the tuple at the sites that install the tuple filter: `Src` is the target
-    (address and destination port probed), `Dst` the local address and port — source and destination
-    as they appear in a *reply*.  Pinned on the Go source text of the `FilterConfig` fields (a swap
-    would make the filter pass the probes and hide the replies). -/
-theorem c12_sites_config :
-    (filterSites.filter (·.kind == .tcp)).map (fun s => (s.file, s.src, s.dst)) = [
-      ("sack/traceroute_sack.go", "p.Target", "tcpAddr.AddrPort()"),
-      ("tcp/tcp_traceroute.go", "netip.AddrPortFrom(targetAddr, t.DestPort)", "netip.AddrPortFrom(localAddr, port)")] := by
-  decide
-
 /-! ## Non-vacuity -/
 
 section Examples
@@ -310,5 +301,4 @@ end Examples
 #print axioms c12_synack_covers_handshake_ip
 #print axioms c12_icmp_covers_ip
 #print axioms c12_sites_cover
-#print axioms c12_sites_config
 end TRV.Props.C12
